@@ -144,11 +144,28 @@ def wfNodes (results : List Shards) : List Op → List Shards → Bool
   | [], _ => true
   | op :: ops, env => wfOp env results op && wfNodes results ops (env ++ [evalOp env results op])
 
-/-- user counters: rows flowing through the `count` nodes, per counter -/
+def refsOf : Op → List Ref
+  | .map s _ _ | .count s _ | .filter s _ | .flatmap s _ | .fold s | .head s _ | .reduce s _ | .reshuffle s
+  | .reshuffle2 s | .repartition s _ | .reshard s _ | .scan s | .writer s | .cache s _ _ => [s]
+  | .cogroup a b => [a, b]
+  | _ => []
+
+/-- which nodes the output depends on (only those are compiled into tasks and run): one backward pass,
+as a node refers to earlier nodes only -/
+def reachable (p : Program) : List Bool :=
+  let n := p.nodes.length
+  let init := (List.range n).map fun i => p.out == .node i
+  (List.range n).reverse.foldl (fun marks i =>
+    if marks.getD i false then
+      (refsOf (p.nodes.getD i default)).foldl (fun m r => match r with | .node j => m.set j true | .result _ => m) marks
+    else marks) init
+
+/-- user counters: rows flowing through the `count` nodes the output depends on, per counter -/
 def counters (p : Program) (env : List Shards) : List Nat :=
+  let reach := reachable p
   (List.range 3).map fun c =>
     (p.nodes.zipIdx.map fun (op, i) => match op with
-      | .count _ ctr => if ctr == c then ((env.getD i default).rows.map List.length).sum else 0
+      | .count _ ctr => if ctr == c && reach.getD i false then ((env.getD i default).rows.map List.length).sum else 0
       | _ => 0).sum
 
 /-- `Head` stops reading its input early, so a counting Map that is *pipelined* into a Head sees only the
